@@ -43,24 +43,37 @@ pub fn round_robin<T>(lists: Vec<Vec<T>>) -> Vec<T> {
     out
 }
 
+/// When set, leaves only take values that every Rust leaf type behind the same TypeScript keyword can
+/// represent (`number`/`bigint`: 1, 2, 100; `string`: one ASCII character) – used by C02, where values
+/// may move between union arms.
+pub static SAFE_LEAVES: std::sync::atomic::AtomicBool = std::sync::atomic::AtomicBool::new(false);
+
+fn safe() -> bool {
+    SAFE_LEAVES.load(Ordering::Relaxed)
+}
+
 macro_rules! leaf {
-    ($($t:ty => [$($v:expr),*]);* $(;)?) => {$(
-        impl Samples for $t { fn samples(_: u32) -> Vec<Self> { vec![$($v),*] } }
+    ($($t:ty => [$($v:expr),*] / [$($s:expr),*]);* $(;)?) => {$(
+        impl Samples for $t {
+            fn samples(_: u32) -> Vec<Self> {
+                if safe() { vec![$($s),*] } else { vec![$($v),*] }
+            }
+        }
     )*};
 }
 
 leaf! {
-    u8 => [0, 7, u8::MAX]; i8 => [i8::MIN, 0, i8::MAX];
-    u16 => [0, 300, u16::MAX]; i16 => [i16::MIN, 0, i16::MAX];
-    u32 => [0, 70000, u32::MAX]; i32 => [i32::MIN, 0, i32::MAX];
-    u64 => [0, 1, u64::MAX]; i64 => [i64::MIN, 0, i64::MAX];
-    u128 => [0, 5, u64::MAX as u128]; i128 => [i64::MIN as i128, 0, i64::MAX as i128];
-    usize => [0, 9, u32::MAX as usize]; isize => [-9, 0, i32::MAX as isize];
-    f32 => [0.0, 1.5, -2.25]; f64 => [0.0, 1.5e10, -2.25];
-    bool => [true, false];
-    char => ['a', 'é', '"'];
-    String => [String::new(), "hello".to_string(), "q\"uo\\te ü".to_string()];
-    () => [()];
+    u8 => [0, 7, u8::MAX] / [1, 2, 100]; i8 => [i8::MIN, 0, i8::MAX] / [1, 2, 100];
+    u16 => [0, 300, u16::MAX] / [1, 2, 100]; i16 => [i16::MIN, 0, i16::MAX] / [1, 2, 100];
+    u32 => [0, 70000, u32::MAX] / [1, 2, 100]; i32 => [i32::MIN, 0, i32::MAX] / [1, 2, 100];
+    u64 => [0, 1, u64::MAX] / [1, 2, 100]; i64 => [i64::MIN, 0, i64::MAX] / [1, 2, 100];
+    u128 => [0, 5, u64::MAX as u128] / [1, 2, 100]; i128 => [i64::MIN as i128, 0, i64::MAX as i128] / [1, 2, 100];
+    usize => [0, 9, u32::MAX as usize] / [1, 2, 100]; isize => [-9, 0, i32::MAX as isize] / [1, 2, 100];
+    f32 => [0.0, 1.5, -2.25] / [1.0, 2.0]; f64 => [0.0, 1.5e10, -2.25] / [1.0, 2.0, 100.0];
+    bool => [true, false] / [true, false];
+    char => ['a', 'é', '"'] / ['a', 'b'];
+    String => [String::new(), "hello".to_string(), "q\"uo\\te ü".to_string()] / ["a".to_string(), "b".to_string()];
+    () => [()] / [()];
 }
 
 impl<T: Samples> Samples for Option<T> {
